@@ -624,6 +624,22 @@ fn boot_synced(s: &Setup, order: &[H], store: Option<StoreConfig>) -> Option<Nod
     Some(node)
 }
 
+/// Wait (bounded) until the pool's snapshot is at `tip`.
+fn wait_pool_tip(node: &Node, tip: &H) -> bool {
+    let t0 = Instant::now();
+    loop {
+        if let Ok(info) = node.shared.tx_pool_controller().get_tx_pool_info() {
+            if &h(&info.tip_hash) == tip {
+                return true;
+            }
+        }
+        if t0.elapsed() > Duration::from_secs(30) {
+            return false;
+        }
+        std::thread::sleep(Duration::from_millis(1));
+    }
+}
+
 fn clear_verify_cache(node: &Node) {
     let cache = node.shared.txs_verify_cache();
     let handle = node.shared.async_handle().clone();
@@ -648,7 +664,8 @@ fn verdicts(s: &Setup, node: &Node, c: &Cand, clear_cache: bool) -> Verdict {
         clear_verify_cache(node);
     }
     let tpc = node.shared.tx_pool_controller();
-    let mut pre_ok = true;
+    // a pool that is not at the context tip gives no verdict about this context
+    let mut pre_ok = wait_pool_tip(node, &s.tip);
     for t in &c.pre {
         pre_ok &= matches!(tpc.submit_local_tx(t.clone()), Ok(Ok(_)));
     }
@@ -685,10 +702,14 @@ fn verdicts(s: &Setup, node: &Node, c: &Cand, clear_cache: bool) -> Verdict {
         None
     };
     if h(&node.tip_hash()) != s.tip {
+        // reorg notifications travel on their own channel: let the pool follow the probe block
+        // first, otherwise the notification could overtake the resynchronisation below
+        wait_pool_tip(node, &h(&node.tip_hash()));
         let _ = node.chain().truncate(packed::Byte32::from_slice(&s.tip).unwrap());
         // the pool is not told about truncations: resynchronise it explicitly
         let _ = tpc.clear_pool(node.shared.cloned_snapshot());
     }
+    wait_pool_tip(node, &s.tip);
     Verdict { pool, accepted, ext, passed_tx_rules }
 }
 
